@@ -5,14 +5,14 @@ wt=/var/tmp/verif-try-$seed
 git -C /repo worktree add -q --detach $wt HEAD || exit 1
 trap 'git -C /repo worktree remove --force $wt >/dev/null 2>&1' EXIT
 git -C $wt apply /verif/seeded/$seed/patch.diff || { echo "patch does not apply"; exit 1; }
-mkdir -p /var/tmp/verif-try-out && cp /verif/UNCLAIMED_OBLIGATIONS.txt /verif/KNOWN_FINDINGS.txt /var/tmp/verif-try-out/ 2>/dev/null
-[ -f /verif/obligations.lock ] && cp /verif/obligations.lock /var/tmp/verif-try-out/
+mkdir -p /var/tmp/verif-try-out-$seed && cp /verif/UNCLAIMED_OBLIGATIONS.txt /verif/KNOWN_FINDINGS.txt /var/tmp/verif-try-out-$seed/ 2>/dev/null
+[ -f /verif/obligations.lock ] && cp /verif/obligations.lock /var/tmp/verif-try-out-$seed/
 for p in "$@"; do
-  out=$(GOVC_CACHE_DIR=/verif/out/cache GOVC_NO_RETRY=1 GOVC_TIMEOUT=${SEED_TIMEOUT:-10} /verif/bin/govc check -repo $wt -prop $p -tier quick -verif /var/tmp/verif-try-out 2>&1)
+  out=$(GOVC_CACHE_DIR=/verif/out/cache GOVC_NO_RETRY=1 GOVC_TIMEOUT=${SEED_TIMEOUT:-10} /verif/bin/govc check -repo $wt -prop $p -tier quick -verif /var/tmp/verif-try-out-$seed 2>&1)
   nv=$(echo "$out" | grep -c "^VIOLATION")
   echo "seed=$seed prop=$p violations=$nv $(echo "$out" | grep -c CHECK-BROKEN | sed 's/^0$//;s/^[1-9].*/BROKEN/')"
   echo "$out" | grep -A1 "^VIOLATION" | grep "^  " | head -${MAXSHOW:-4}
   sout=$(REPO=$wt STANDIN_NO_EVIDENCE=1 /verif/standins/run.sh $p quick 2>&1)
   if echo "$sout" | grep -q "^VIOLATION"; then echo "  standin: $(echo "$sout" | grep -A1 '^VIOLATION' | tail -1 | cut -c1-200)"; fi
 done
-rm -rf /var/tmp/verif-try-out
+rm -rf /var/tmp/verif-try-out-$seed
